@@ -429,6 +429,26 @@ def chains_case(p, res):
                              f"{[round(v_, 4) for v_ in item_power(before, 'total')]} before, {[round(v_, 4) for v_ in item_power(after, 'total')]} after")
                 elif not torch.allclose(yc, seq, rtol=1e-6, atol=1e-7):
                     res.viol("composite", f"{mname},{pos},{how}", "composite=sequential", f"{how}({pos}: {mname}) differs from applying its parts one after the other")
+    # factories hand out independent objects: editing one composite (add_constraint) leaves a second one, built with the same arguments before
+    # or after the edit, as the factory documents it
+    facs = [("ofdm", lambda: create_ofdm_constraints(total_power=1.0, max_papr=4.0)), ("mimo", lambda: create_mimo_constraints(num_antennas=2, uniform_power=0.25, max_papr=3.0)),
+            ("mimo-total", lambda: create_mimo_constraints(num_antennas=2, total_power=2.0)), ("combined", lambda: combine_constraints([KC.TotalPowerConstraint(1.0), KC.PAPRConstraint(3.0)]))]
+    for fname, fmk in facs:
+        try:
+            first = fmk()
+            ref_out = first(Xc)
+            second_before = fmk()
+            first.add_constraint(KC.AveragePowerConstraint(7.0))
+            second_after = fmk()
+            outs = {"built before the edit": second_before(Xc), "built after the edit": second_after(Xc)}
+        except Exception as e:  # noqa: BLE001
+            res.viol("composite", f"{fname},independent", "raises", f"{type(e).__name__}: {str(e)[:160]}")
+            continue
+        res.ev(2, nontrivial=2, transitions=5)
+        for when, o in outs.items():
+            if not torch.equal(o, ref_out):
+                res.viol("composite", f"{fname},independent", "argument-intact", f"a second {fname} composite ({when} of the first one) behaves like the edited first one: item powers {[round(v_, 4) for v_ in item_power(o, 'total')]}, "
+                         f"the factory's own result gives {[round(v_, 4) for v_ in item_power(ref_out, 'total')]}")
     res.sample({"chains": 155 + 20, "helper_purity": len(makers) * 9})
 
 
